@@ -12,18 +12,42 @@ edit and again afterwards on the same objects; every answer is compared with the
 identical trees and with a repeated call.
 
 (S) statement search: Node.is_equal against an independent plain-Python deep comparison of the
-two snapshots (dicts as dicts, children in order), for every pair of DISTINCT trees.
+two snapshots (dicts as dicts, children in order), for every pair of DISTINCT trees.  For edited pairs
+the expectation is the UNTOUCHED tree as it was before the edit against the edited one, and the
+untouched tree's snapshot must not change (edits are made in place, half of them by writing into the
+exposed dicts / child list).  Every string handed to the library is a fresh str object; pairs of
+distinct trees with identical Node.ids (explicit ids, the same JSON loaded twice) are included.
 (B) correspondence: Model/Equal.v [is_equal] evaluated inside Coq on the same pairs, with the
 object identities the implementation saw."""
 from harness import common
 from harness import nodelib as NL
 from harness.common import clist, cnat
 
-NAMES = ["a", "b", "dataset"]
-KEYS = ["k", "id", "x:y", "scope"]
-VALS = ["", "1", "v", "w w", "é中", None, None]      # dict values may be None (e.g. extras set by callers)
-TEXTS = [None, "", "t", "some text", "é"]
-PREFIXES = [None, "eml", "x"]
+# every pool string has more than one character (single-character strings and "" are singletons in
+# CPython, so they cannot be made fresh); "" and None stay in as the falsy-but-legal values
+NAMES = ["aa", "bb", "dataset"]
+KEYS = ["kk", "id", "x:y", "scope"]
+VALS = ["", "11", "vv", "w w", "é中", None, None]      # dict values may be None (e.g. extras set by callers)
+TEXTS = [None, "", "tt", "some text", "éé"]
+PREFIXES = [None, "eml", "xx"]
+
+
+def fresh(s):
+    """a NEW str object equal to s (never a shared literal or pool constant)"""
+    if not isinstance(s, str) or len(s) < 2:
+        return s
+    r = "".join(list(s))
+    assert r == s and r is not s
+    return r
+
+
+def fresh_snap(sn):
+    """the same snapshot with every string a new object: two trees built from it share no str"""
+    out = {k: fresh(v) for k, v in sn.items() if k not in ("attrs", "extras", "nsmap", "kids")}
+    for f in ("attrs", "extras", "nsmap"):
+        out[f] = [[fresh(k), fresh(v)] for k, v in sn[f]]
+    out["kids"] = [fresh_snap(k) for k in sn["kids"]]
+    return out
 HEADER = "From MP Require Import Model.EqualRun.\n"
 
 
@@ -137,9 +161,9 @@ def lib_build(sn, plan):
     for step in plan:
         nodes = nodes_preorder(root)
         if step[0] == "set_nsmap":
-            root.set_nsmap({k: v for k, v in step[1]})
+            root.set_nsmap({fresh(k): fresh(v) for k, v in step[1]})
         else:
-            nodes[step[1] % len(nodes)].add_namespace(step[2], step[3])
+            nodes[step[1] % len(nodes)].add_namespace(fresh(step[2]), fresh(step[3]))
     return root
 
 
@@ -180,19 +204,19 @@ def dict_edit(rng, get, put):
     if free:
         k0 = rng.choice(free)
         v0 = rng.choice(VALS)
-        eds.append(("add", lambda: put(k0, v0)))
+        eds.append(("add", lambda: put(fresh(k0), fresh(v0))))
 
     def on_entry(suffix, key):
         eds.append(("remove" + suffix, lambda: d.pop(key)))
         v2 = other(rng, VALS, d[key])
-        eds.append(("change" + suffix, lambda: put(key, v2)))
+        eds.append(("change" + suffix, lambda: put(key, fresh(v2))))
         if free:
             k4 = rng.choice(free)
             v4 = d[key] if rng.random() < 0.5 else rng.choice(VALS)
 
             def rekey():
                 d.pop(key)
-                put(k4, v4)
+                put(fresh(k4), fresh(v4))
             eds.append(("rekey" + suffix, rekey))
     if d:
         on_entry("", rng.choice(list(d)))
@@ -205,21 +229,24 @@ def dict_edit(rng, get, put):
 def edits_for(rng, node, is_root):
     from metapype.model.node import Node
     eds = []
-    eds.append(("name", lambda: setattr(node, "name", other(rng, NAMES + ["zz"], node.name))))
-    eds.append(("content", lambda: setattr(node, "content", other(rng, TEXTS, node.content))))
-    eds.append(("tail", lambda: setattr(node, "tail", other(rng, TEXTS, node.tail))))
-    eds.append(("prefix", lambda: setattr(node, "prefix", other(rng, PREFIXES, node.prefix))))
+    eds.append(("name", lambda: setattr(node, "name", fresh(other(rng, NAMES + ["zz"], node.name)))))
+    eds.append(("content", lambda: setattr(node, "content", fresh(other(rng, TEXTS, node.content)))))
+    eds.append(("tail", lambda: setattr(node, "tail", fresh(other(rng, TEXTS, node.tail)))))
+    eds.append(("prefix", lambda: setattr(node, "prefix", fresh(other(rng, PREFIXES, node.prefix)))))
     eds.append(("id", lambda: setattr(node, "_id", node.id + "-other")))
-    for kind, th in dict_edit(rng, lambda: node.attributes, node.add_attribute):
+    # half through the API, half by writing into the exposed dict (node.attributes[k] = v)
+    put_a = node.add_attribute if rng.random() < 0.5 else (lambda k, v: node.attributes.__setitem__(k, v))
+    put_e = node.add_extras if rng.random() < 0.5 else (lambda k, v: node.extras.__setitem__(k, v))
+    for kind, th in dict_edit(rng, lambda: node.attributes, put_a):
         eds.append(("attrs-" + kind, th))
-    for kind, th in dict_edit(rng, lambda: node.extras, node.add_extras):
+    for kind, th in dict_edit(rng, lambda: node.extras, put_e):
         eds.append(("extras-" + kind, th))
     for kind, th in dict_edit(rng, lambda: node.nsmap, lambda k, v: node.nsmap.__setitem__(k, v)):
         eds.append(("nsmap-" + kind, th))
     n = len(node.children)
 
     def add_child():
-        c = Node(rng.choice(NAMES), id=node.id + "-new", content=rng.choice(TEXTS))
+        c = Node(fresh(rng.choice(NAMES)), id=node.id + "-new", content=fresh(rng.choice(TEXTS)))
         c.parent = node
         node.children.insert(rng.randint(0, n), c)
     eds.append(("child-add", add_child))
@@ -271,7 +298,7 @@ class Collector:
         self.ctx = ctx
         self.pairs = []     # (coq literal pair, want literal, meta)
 
-    def add(self, kind, a, b, distinct, sig):
+    def add(self, kind, a, b, distinct, sig, expected=None, recipe=None):
         ctx = self.ctx
         cls = {}
         sa, sb = snap_sh(a, cls), snap_sh(b, cls)
@@ -292,10 +319,12 @@ class Collector:
         objmap = {}
         lit = "(" + coq_otree(a, objmap) + ", " + coq_otree(b, objmap) + ")"
         meta = {"kind": kind, "a": sa, "b": sb, "observed": obs, "distinct_trees": distinct}
+        if recipe is not None:
+            meta["recipe"] = recipe
         ctx.case(sig, True)
         ctx.count(kind)
         if distinct:
-            exp = deep_eq(sa, sb)
+            exp = deep_eq(sa, sb) if expected is None else expected
             meta["expected"] = exp
             ctx.count("expected_" + ("equal" if exp else "unequal"))
             if obs != [exp, exp]:
@@ -321,7 +350,7 @@ def gen_cases(ctx, col, ntrees, max_nodes, per_node_edits):
         ctx.count("build-style-" + style)
 
         def mk(tag, snap=None):
-            s = with_ids(base if snap is None else snap, tag)
+            s = fresh_snap(with_ids(base if snap is None else snap, tag))
             return lib_build(s, plan) if style == "library" else NL.build(s, attach=False)
         # equal pairs
         NL.reset_store()
@@ -333,6 +362,12 @@ def gen_cases(ctx, col, ntrees, max_nodes, per_node_edits):
         col.add("equal-dict-order", a, c, True, (ti, "eqo"))
         col.add("equal-copy", a, a.copy(), True, (ti, "copy"))
         col.add("same-object", a, a, False, (ti, "same"))
+        # two DISTINCT trees whose corresponding nodes carry the same Node.id
+        col.add("equal-same-ids", a, mk("a"), True, (ti, "sameids"))
+        j1, j2 = json_twins(ctx, a)
+        if j1 is not None:
+            col.add("equal-from-json-twice", j1, j2, True, (ti, "json2"))
+            col.add("original-vs-from-json", a, j1, True, (ti, "json1"))
         # a pair sharing one child object
         if a.children:
             d = mk("d")
@@ -349,25 +384,59 @@ def gen_cases(ctx, col, ntrees, max_nodes, per_node_edits):
             for kind in kinds:
                 NL.reset_store()
                 a = mk("a")
-                via_copy = rng.random() < 0.5
-                b = a.copy() if via_copy else mk("b")
+                how = rng.choice(["copy", "copy", "twin", "same-id-twin", "from-json"])
+                if how == "copy":
+                    b = a.copy()
+                elif how == "twin":
+                    b = mk("b")
+                elif how == "same-id-twin":
+                    b = mk("a")
+                else:
+                    b, _ = json_twins(ctx, a)
+                    if b is None:
+                        how, b = "copy", a.copy()
                 side = rng.choice(["second", "first"])
-                target = nodes_preorder(b if side == "second" else a)[ni]
+                edited, other_tree = (b, a) if side == "second" else (a, b)
+                target = nodes_preorder(edited)[ni]
                 avail = dict(edits_for(rng, target, ni == 0))
                 if kind not in avail:
                     continue
-                # the pair is compared BEFORE the edit (equal), then one of them is edited in place
-                # and the SAME objects are compared again
+                # the pair is compared BEFORE the edit, then one of them is edited in place and the
+                # SAME objects are compared again
                 before = observe(a, b)
-                if before != [True, True]:
-                    ctx.fail("C18:pre-edit", f"a tree and its {'copy' if via_copy else 'twin'} compare {before} before any edit",
-                             {"kind": "impl-vs-statement", "a": snap_sh(a), "b": snap_sh(b), "observed": before, "expected": True})
+                exp_before = deep_eq(NL.snapshot(a), NL.snapshot(b))
+                if before != [exp_before, exp_before]:
+                    ctx.fail("C18:pre-edit:" + how, f"a tree and its {how} compare {before} before any edit; field by field they "
+                             f"{'agree' if exp_before else 'differ'}",
+                             {"kind": "impl-vs-statement", "a": snap_sh(a), "b": snap_sh(b), "observed": before, "expected": exp_before})
+                other_before = NL.snapshot(other_tree)
+                base_a = snap_sh(a)
                 avail[kind]()
-                ctx.count("edit-via-copy" if via_copy else "edit-via-twin")
+                tn = NL.snapshot(target)
+                recipe = {"base_a": base_a, "relation": how, "edited_argument": side, "target_preorder_index": ni, "edit": kind,
+                          "target_fields_after": {k: tn[k] for k in ("name", "content", "tail", "prefix", "attrs", "extras", "nsmap")}}
+                ctx.count("edit-via-" + how)
                 ctx.count("edit-on-%s-argument" % side)
                 ctx.count("depth-of-edit=%d" % depth_of(target))
-                col.add("edit:" + kind, a, b, True, (ti, ni, kind, side, via_copy))
+                # what the statement expects: the UNTOUCHED tree as it was, against the edited one
+                exp = deep_eq(other_before, NL.snapshot(edited))
+                if NL.snapshot(other_tree) != other_before:
+                    ctx.fail("C18:edit-leaks:" + how, f"editing one tree ({kind}, in place) changed the other one, which is its {how}",
+                             {"kind": "impl-vs-statement", "edit": kind, "edited_argument": side, "relation": how, "recipe": recipe,
+                              "other_before": other_before, "other_after": NL.snapshot(other_tree), "a": snap_sh(a), "b": snap_sh(b)})
+                col.add("edit:" + kind, a, b, True, (ti, ni, kind, side, how), expected=exp, recipe=recipe)
     NL.reset_store()
+
+
+def json_twins(ctx, a):
+    """the same JSON document loaded twice: two distinct trees with identical ids"""
+    from metapype.model import metapype_io
+    try:
+        doc = metapype_io.to_json(a)
+        return metapype_io.from_json(doc), metapype_io.from_json(fresh(doc))
+    except Exception as e:           # the JSON codec is C06's; count and go on
+        ctx.count("json-twin-unavailable:" + type(e).__name__)
+        return None, None
 
 
 def depth_of(n):
@@ -420,10 +489,52 @@ def run(ctx):
                                "against an independent deep comparison")
 
 
+def run_recipe(rc):
+    """Rebuild the original, derive the other tree the recorded way, redo the recorded in-place edit
+    of one node (field edits only; child edits are replayed from the snapshots)."""
+    from metapype.model import metapype_io
+    NL.reset_store()
+    a = build_sh(rc["base_a"], {})
+    how = rc["relation"]
+    if how == "copy":
+        b = a.copy()
+    elif how == "from-json":
+        b = metapype_io.from_json(metapype_io.to_json(a))
+    else:
+        b = build_sh(rc["base_a"], {})
+    edited, other_tree = (b, a) if rc["edited_argument"] == "second" else (a, b)
+    other_before = NL.snapshot(other_tree)
+    node = nodes_preorder(edited)[rc["target_preorder_index"]]
+    f = rc["target_fields_after"]
+    node.name, node.content, node.tail, node.prefix = f["name"], f["content"], f["tail"], f["prefix"]
+    for field, d in (("attrs", node.attributes), ("extras", node.extras), ("nsmap", node.nsmap)):
+        want = {k: v for k, v in f[field]}
+        if d != want:
+            for k in list(d):
+                if k not in want:
+                    del d[k]                      # written in place, through the exposed dict
+            for k, v in want.items():
+                d[k] = v
+    return a, b, edited, other_tree, other_before
+
+
 def replay(ctx, data):
     """Re-run one recorded pair against the implementation."""
     r = data.get("replay", data)
     case = r.get("case", r)
+    rc = case.get("recipe")
+    if rc is not None and not rc["edit"].startswith("child") and rc["edit"] != "id":
+        a, b, edited, other_tree, other_before = run_recipe(rc)
+        obs = observe(a, b)
+        exp = deep_eq(other_before, NL.snapshot(edited))
+        leaked = NL.snapshot(other_tree) != other_before
+        print("recipe:", rc["relation"], rc["edit"], "on the", rc["edited_argument"], "argument; observed", obs, "expected", exp,
+              "; other tree changed:", leaked)
+        if leaked:
+            ctx.fail("C18:edit-leaks:" + rc["relation"], "editing one tree in place changed the other one", {"kind": "impl-vs-statement", **case})
+        if obs != [exp, exp]:
+            ctx.fail("C18:edit:" + rc["edit"], f"Node.is_equal answers {obs}, the statement expects {exp}", {"kind": "impl-vs-statement", **case})
+        return
     if "a" not in case:
         print("nothing to replay against the implementation:", r.get("kind"))
         return
